@@ -207,6 +207,9 @@ Qed.
 Lemma bden_cons b bs : bden (b :: bs) = fplace (snd b) (fst b) ++ bden bs.
 Proof. reflexivity. Qed.
 
+Lemma bden_single b : bden [b] = fplace (snd b) (fst b).
+Proof. unfold bden. simpl. apply app_nil_r. Qed.
+
 Lemma bden_app bs1 bs2 : bden (bs1 ++ bs2) = bden bs1 ++ bden bs2.
 Proof. unfold bden. apply flat_map_app. Qed.
 
@@ -237,11 +240,11 @@ Lemma mult_sublists_sound blocks id inds blocks' n :
   ForallOrdPairs bdisj blocks' /\ Forall wfblock blocks' /\ Forall (fun b => below n (snd b)) blocks' /\
   forall psi : state, sem (den (bden blocks')) psi = sem (den (bden blocks ++ [(id, inds)])) psi.
 Proof.
-  intros Hdis Hwf Hn Hinds H. unfold mult_sublists in H. cbv zeta in H.
-  set (p := fun b : block => inter_nonempty (snd b) inds) in *.
-  remember (filter p blocks) as hit eqn:Ehit.
+  intros Hdis Hwf Hn Hinds H. unfold mult_sublists in H.
+  destruct (filter (hits inds) blocks) as [|h0 hs] eqn:Ehit; [discriminate|]. rewrite <- Ehit in H. clear Ehit h0 hs.
+  unfold mult_merge in H. cbv zeta in H.
+  set (p := hits inds) in *.
   set (keep := filter (fun b => negb (p b)) blocks) in *.
-  destruct hit as [|h0 hs]; [discriminate|]. rewrite Ehit in H.
   set (hit := filter p blocks) in *.
   set (inds_sub := flat_map snd hit) in *.
   set (revised := ord inds_sub inds) in *.
@@ -276,10 +279,10 @@ Proof.
     + unfold inds_sub in Hx2. apply in_flat_map in Hx2. destruct Hx2 as [b' [Hb' Hx2]]. apply filter_In in Hb'.
       destruct Hb' as [Hb' Hpb'].
       destruct (ForallOrdPairs_In Hdis y b' Hy Hb') as [E|[D|D]].
-      * subst. rewrite Hpb' in Hpy. discriminate.
+      * subst b'. rewrite Hpb' in Hpy. discriminate.
       * exact (D x Hx1 Hx2).
       * exact (D x Hx2 Hx1).
-    + apply negb_true_iff in Hpy. exact (inter_nonempty_false _ _ Hpy x Hx1 Hx2).
+    + apply negb_true_iff in Hpy. unfold p, hits in Hpy. exact (inter_nonempty_false _ _ Hpy x Hx1 Hx2).
   - apply Forall_app. split; [exact Hwf_keep|]. constructor; [|constructor]. exact Hnew.
   - apply Forall_app. split.
     + apply Forall_forall. intros x Hx. apply filter_In in Hx. rewrite Forall_forall in Hn. apply Hn. tauto.
@@ -287,9 +290,9 @@ Proof.
       inversion Hrev_mem. assumption.
   - intro psi. rewrite bden_app, den_app, (sem_app O). rewrite den_app, (sem_app O).
     rewrite (bden_partition p blocks Hdis Hwf psi). fold hit keep.
-    unfold bden at 1. simpl flat_map. rewrite app_nil_r. rewrite fplace_app, den_app, (sem_app O).
-    rewrite fplace_fplace by (rewrite L1; exact Hloc). rewrite M1, Hpl.
-    rewrite fplace_fplace by (rewrite L2; apply flocal_single). rewrite M2, fplace_single. reflexivity.
+    rewrite bden_single. cbn [fst snd]. rewrite fplace_app, den_app, (sem_app O).
+    rewrite (fplace_fplace revised t1) by (rewrite L1; exact Hloc). rewrite M1, Hpl.
+    rewrite (fplace_fplace revised t2) by (rewrite L2; apply flocal_single). rewrite M2, fplace_single. reflexivity.
 Qed.
 
 (* ---------------- the loop of _gate_sequence_product ---------------- *)
@@ -311,8 +314,8 @@ Proof.
   intros Hrec. induction rest as [|[id inds] rest IH]; intros first blocks res Hdis Hwf Hn Hrest Hfirst H.
   - simpl in H. destruct (expand_overall blocks) as [[c inds_r]|] eqn:E; [|discriminate]. injection H as <-.
     destruct (expand_overall_sound _ _ _ _ Hwf Hn E) as [Ec [Ei [Hle Hl]]].
-    exists c, inds_r. rewrite Ei at 2 3 4. rewrite seq_length. repeat split.
-    + exact Hl.
+    subst inds_r. exists c, (seq 0 (length (flat_map snd blocks))). rewrite seq_length.
+    split; [reflexivity|]. split; [exact Hl|]. split.
     + apply below_seq. exact Hle.
     + intro psi. rewrite fplace_seq by exact Hl. rewrite app_nil_r, Ec. reflexivity.
   - inversion Hrest as [|? ? Hinds Hrest']; subst. simpl in Hinds.
@@ -326,24 +329,23 @@ Proof.
       assert (Hm : length (flat_map snd blocks) = length S).
       { unfold covers in Ecov. destruct blocks as [|b [|b' bs]]; try discriminate.
         apply Nat.eqb_eq in Ecov. simpl. rewrite app_nil_r. exact Ecov. }
-      rewrite Hm in *.
+      rewrite Hm in *. subst overall_inds.
       assert (Hall : flocal (length S) (U_overall ++ fplace rem_inds U_left)).
       { apply flocal_app. split; [exact Hl|].
         apply (flocal_fplace (length rem_inds)); [exact Hloc_left| reflexivity| exact Hrem]. }
-      exists (U_overall ++ fplace rem_inds U_left), overall_inds. rewrite Ei at 2 3 4. rewrite seq_length.
-      repeat split.
-      * exact Hall.
+      exists (U_overall ++ fplace rem_inds U_left), (seq 0 (length S)). rewrite seq_length.
+      split; [reflexivity|]. split; [exact Hall|]. split.
       * apply below_seq. lia.
       * intro psi. rewrite fplace_seq by exact Hall. rewrite !den_app, !(sem_app O). rewrite Hsem_left, Ec. reflexivity.
     + destruct first.
       * rewrite (Hfirst eq_refl) in *.
         destruct (IH false [single id inds] res) as [c [inds_r [E1 [E2 [E3 E4]]]]]; try assumption.
-        -- repeat constructor.
-        -- repeat constructor. unfold wfblock, single. simpl. apply flocal_single.
-        -- repeat constructor. exact Hinds.
+        -- constructor; [constructor| constructor].
+        -- constructor; [|constructor]. unfold wfblock, single. cbn [fst snd]. apply flocal_single.
+        -- constructor; [|constructor]. exact Hinds.
         -- discriminate.
         -- exists c, inds_r. repeat split; try assumption. intro psi. rewrite E4.
-           unfold bden, single. simpl. rewrite fplace_single. reflexivity.
+           rewrite bden_single. unfold single. cbn [fst snd]. rewrite fplace_single. reflexivity.
       * destruct (inter_nonempty (flat_map snd blocks) inds) eqn:Ei.
         -- destruct (mult_sublists ord blocks _ inds) as [blocks'|] eqn:Em; [|discriminate].
            destruct (mult_sublists_sound _ _ _ _ _ Hdis Hwf Hn Hinds Em) as [D' [W' [N' S']]].
@@ -354,11 +356,12 @@ Proof.
         -- destruct (IH false (blocks ++ [single id inds]) res) as [c [inds_r [E1 [E2 [E3 E4]]]]]; try assumption.
            ++ apply ForallOrdPairs_app_single; [exact Hdis|]. apply Forall_forall. intros y Hy x Hx1 Hx2. simpl in Hx2.
               apply (inter_nonempty_false _ _ Ei x); [|exact Hx2]. apply in_flat_map. exists y. tauto.
-           ++ apply Forall_app. split; [exact Hwf|]. repeat constructor. unfold wfblock, single. simpl. apply flocal_single.
-           ++ apply Forall_app. split; [exact Hn|]. repeat constructor. exact Hinds.
+           ++ apply Forall_app. split; [exact Hwf|]. constructor; [|constructor].
+              unfold wfblock, single. cbn [fst snd]. apply flocal_single.
+           ++ apply Forall_app. split; [exact Hn|]. constructor; [|constructor]. exact Hinds.
            ++ discriminate.
            ++ exists c, inds_r. repeat split; try assumption. intro psi. rewrite E4.
-              rewrite bden_app. unfold bden at 2, single. simpl flat_map. rewrite app_nil_r, fplace_single.
+              rewrite bden_app, bden_single. unfold single. cbn [fst snd]. rewrite fplace_single.
               rewrite <- app_assoc. reflexivity.
 Qed.
 
@@ -393,17 +396,17 @@ Proof.
   destruct (relabel_gates S gates) as [rel|] eqn:Erel; [|discriminate].
   apply relabel_gates_sound in Erel. destruct Erel as [Eg Hrel].
   assert (Hrec : rec_ok (gsp ord fuel)) by (intros gs r Hr; apply IH; exact Hr).
-  destruct (gsp_loop_sound (gsp ord fuel) S Hrec rel true [] res) as [c [inds_r [E1 [E2 [E3 E4]]]]];
-    try assumption; try constructor; try reflexivity.
+  destruct (gsp_loop_sound (gsp ord fuel) S Hrec rel true [] res (FOP_nil _) (Forall_nil _) (Forall_nil _) Hrel
+              (fun _ => eq_refl) H) as [c [inds_r [E1 [E2 [E3 E4]]]]].
   subst res. unfold back. simpl fst. simpl snd. split; [rewrite map_length; exact E2|].
-  intro psi. rewrite <- fplace_fplace by exact E2. rewrite Eg, !den_fplace.
+  intro psi. rewrite <- fplace_fplace by exact E2. rewrite Eg. rewrite (den_fplace S (fplace inds_r c)), (den_fplace S rel).
   assert (HS : NoDup S) by (apply isort_NoDup, dedup_NoDup).
   assert (L1 : local (length S) (den (fplace inds_r c))).
   { apply local_den. apply (flocal_fplace (length inds_r)); [exact E2| reflexivity| exact E3]. }
   assert (L2 : local (length S) (den rel)) by (apply local_den; exact Hrel).
   assert (Esem : sem (den (fplace inds_r c)) = sem (den rel)).
   { apply functional_extensionality. intro phi. rewrite E4. reflexivity. }
-  rewrite (lift_place O Kring S _ _ HS L1 L2 Esem). reflexivity.
+  rewrite (lift_place O S _ _ HS L1 L2 Esem). reflexivity.
 Qed.
 End Ord.
 End Sem.
